@@ -812,4 +812,484 @@ theorem step_spec {β : Type} (c : Config) (ht : 0 < c.target) (s : CState (Opti
       simp only [Out.batches]
       exact ⟨⟨hi.1, hi.2.1, hd⟩, ⟨[], by simp⟩, by simp, fun _ => by simp⟩
 
+/-! ### take -/
+
+theorem getIdx_decodeWith {α : Type} (vals : List α) (bits : List Bool) (hl : vals.length = bits.length) (i : Int) :
+    getIdx (decodeWith vals bits) i =
+      match getIdx vals i, getIdx bits i with
+      | some v, some b => some (if b then some v else none)
+      | _, _ => none := by
+  unfold getIdx
+  by_cases hneg : i < 0
+  · simp [hneg]
+  · simp only [hneg, if_false]
+    generalize i.toNat = k
+    induction vals generalizing bits k with
+    | nil => cases bits <;> simp [decodeWith]
+    | cons v vals ih =>
+      cases bits with
+      | nil => simp at hl
+      | cons b bits =>
+        cases k with
+        | zero => simp [decodeWith]
+        | succ k => simpa [decodeWith] using ih bits (by simpa using hl) k
+
+/-- per-element form of `take_native` / `take_bits` on (index, valid) pairs -/
+def nativeStep {α : Type} [Inhabited α] (vals : List α) (iv : Int × Bool) : Option α :=
+  match getIdx vals iv.1 with
+  | some v => some v
+  | none => if iv.2 then none else some default
+
+def bitsStep (bits : List Bool) (iv : Int × Bool) : Option Bool :=
+  if iv.2 then getIdx bits iv.1 else some false
+
+def specStep {α : Type} (d : List (Option α)) (iv : Int × Bool) : Option (Option α) :=
+  takeRow d (if iv.2 then some iv.1 else none)
+
+theorem take_pairs {α : Type} [Inhabited α] (vals : List α) (bits : List Bool)
+    (hl : vals.length = bits.length) (ivs : List (Int × Bool)) :
+    match ivs.mapM (specStep (decodeWith vals bits)) with
+    | some r => ∃ v b, ivs.mapM (nativeStep vals) = some v ∧ ivs.mapM (bitsStep bits) = some b ∧
+        decodeWith v b = r ∧ v.length = ivs.length ∧ b.length = ivs.length
+    | none => ivs.mapM (nativeStep vals) = none := by
+  induction ivs with
+  | nil => simp [decodeWith]
+  | cons iv ivs ih =>
+    obtain ⟨i, valid⟩ := iv
+    simp only [List.mapM_cons]
+    have hg := getIdx_decodeWith vals bits hl i
+    have hsame : (getIdx vals i).isSome = (getIdx bits i).isSome := by
+      unfold getIdx
+      by_cases hneg : i < 0
+      · simp [hneg]
+      · simp only [hneg, if_false]
+        by_cases hk : i.toNat < vals.length
+        · rw [List.getElem?_eq_getElem hk, List.getElem?_eq_getElem (by omega)]; rfl
+        · rw [List.getElem?_eq_none (by omega), List.getElem?_eq_none (by omega)]; rfl
+    cases valid with
+    | false =>
+      have e1 : specStep (decodeWith vals bits) (i, false) = some none := rfl
+      have e3 : bitsStep bits (i, false) = some false := rfl
+      have e2 : ∃ x, nativeStep vals (i, false) = some x := by
+        unfold nativeStep; cases getIdx vals i <;> simp
+      obtain ⟨x, e2⟩ := e2
+      rw [e1, e2, e3]
+      cases hs : ivs.mapM (specStep (decodeWith vals bits)) with
+      | none => rw [hs] at ih; simp [ih]
+      | some r =>
+        rw [hs] at ih
+        obtain ⟨v, b, h1, h2, h3, h4, h5⟩ := ih
+        simp [h1, h2, decodeWith, h3, h4, h5]
+    | true =>
+      have e1 : specStep (decodeWith vals bits) (i, true) = getIdx (decodeWith vals bits) i := by
+        unfold specStep takeRow getIdx; rfl
+      have e3 : bitsStep bits (i, true) = getIdx bits i := rfl
+      have e2 : nativeStep vals (i, true) = getIdx vals i := by
+        unfold nativeStep; cases getIdx vals i <;> simp
+      rw [e1, e2, e3, hg]
+      cases hv : getIdx vals i with
+      | none => simp
+      | some x =>
+        cases hb : getIdx bits i with
+        | none => rw [hv, hb] at hsame; simp at hsame
+        | some y =>
+          simp only
+          cases hs : ivs.mapM (specStep (decodeWith vals bits)) with
+          | none => rw [hs] at ih; simp [ih]
+          | some r =>
+            rw [hs] at ih
+            obtain ⟨v, b, h1, h2, h3, h4, h5⟩ := ih
+            simp [h1, h2, decodeWith, h3, h4, h5]
+
+
+theorem mapM_map_opt {α β γ : Type} (g : α → β) (f : β → Option γ) (l : List α) :
+    (l.map g).mapM f = l.mapM (fun x => f (g x)) := by
+  induction l with
+  | nil => simp
+  | cons x l ih => simp [List.mapM_cons, ih]
+
+/-- the (index, valid) pairs the take kernels iterate over -/
+def idxPairs (idx : IdxArr) : List (Int × Bool) :=
+  match nullsIfAny idx.nulls with
+  | some n => List.zip idx.vals n
+  | none => idx.vals.map (fun i => (i, true))
+
+theorem nullsIfAny_some {n : Option (List Bool)} {bs : List Bool} (h : nullsIfAny n = some bs) :
+    n = some bs ∧ nullCount bs > 0 := by
+  unfold nullsIfAny at h
+  cases n with
+  | none => simp at h
+  | some b =>
+    by_cases hc : nullCount b > 0
+    · simp [hc] at h; subst h; exact ⟨rfl, hc⟩
+    · simp [hc] at h
+
+theorem nullsIfAny_none {n : Option (List Bool)} (h : nullsIfAny n = none) :
+    n = none ∨ ∃ bs, n = some bs ∧ countSet bs = bs.length := by
+  unfold nullsIfAny at h
+  cases n with
+  | none => exact Or.inl rfl
+  | some b =>
+    by_cases hc : nullCount b > 0
+    · simp [hc] at h
+    · right
+      refine ⟨b, rfl, ?_⟩
+      unfold nullCount at hc
+      have := countSet_le b
+      omega
+
+theorem takeNative_pairs {α : Type} [Inhabited α] (vals : List α) (idx : IdxArr) :
+    takeNative vals idx = (idxPairs idx).mapM (nativeStep vals) := by
+  unfold takeNative idxPairs
+  cases h : nullsIfAny idx.nulls with
+  | some n => rfl
+  | none =>
+    simp only
+    rw [mapM_map_opt]
+    congr 1
+    funext i
+    unfold nativeStep
+    cases getIdx vals i <;> simp
+
+theorem takeBits_pairs (bits : List Bool) (idx : IdxArr) :
+    takeBits bits idx = (idxPairs idx).mapM (bitsStep bits) := by
+  unfold takeBits idxPairs
+  cases h : nullsIfAny idx.nulls with
+  | some n => rfl
+  | none =>
+    simp only
+    rw [mapM_map_opt]
+    rfl
+
+theorem mapM_decodeWith_zip {α : Type} (d : List (Option α)) (ivals : List Int) (n : List Bool)
+    (hl : n.length = ivals.length) :
+    (decodeWith ivals n).mapM (takeRow d) = (List.zip ivals n).mapM (specStep d) := by
+  induction ivals generalizing n with
+  | nil => cases n <;> simp [decodeWith]
+  | cons i ivals ih =>
+    cases n with
+    | nil => simp at hl
+    | cons b n =>
+      simp only [decodeWith, List.zip_cons_cons, List.mapM_cons, ih n (by simpa using hl)]
+      cases b <;> rfl
+
+theorem takeSpec_pairs {α : Type} (d : List (Option α)) (idx : IdxArr) (hw : idx.WF) :
+    takeSpec d idx.decode = (idxPairs idx).mapM (specStep d) := by
+  unfold takeSpec idxPairs
+  cases h : nullsIfAny idx.nulls with
+  | some n =>
+    obtain ⟨hn, _⟩ := nullsIfAny_some h
+    have hdec : idx.decode = decodeWith idx.vals n := by unfold Arr.decode; simp only [hn]
+    rw [hdec]
+    exact mapM_decodeWith_zip d idx.vals n (hw n hn)
+  | none =>
+    simp only
+    have hdec : idx.decode = idx.vals.map some := by
+      unfold Arr.decode
+      rcases nullsIfAny_none h with hn | ⟨bs, hn, hall⟩
+      · simp only [hn]
+      · simp only [hn]
+        exact decodeWith_all_valid idx.vals bs hall (hw bs hn).symm
+    rw [hdec, mapM_map_opt, mapM_map_opt]
+    rfl
+
+theorem length_idxPairs (idx : IdxArr) (hw : idx.WF) : (idxPairs idx).length = idx.vals.length := by
+  unfold idxPairs
+  cases h : nullsIfAny idx.nulls with
+  | some n =>
+    obtain ⟨hn, _⟩ := nullsIfAny_some h
+    simp [hw n hn]
+  | none => simp
+
+theorem decode_with_idx_nulls {α : Type} (v : List α) (idx : IdxArr) (hw : idx.WF)
+    (hl : v.length = idx.vals.length) :
+    decodeWith v ((idxPairs idx).map (·.2)) = Arr.decode { vals := v, nulls := idx.nulls } := by
+  unfold idxPairs Arr.decode
+  cases h : nullsIfAny idx.nulls with
+  | some n =>
+    obtain ⟨hn, _⟩ := nullsIfAny_some h
+    simp only [hn]
+    congr 1
+    exact List.map_snd_zip (by rw [hw n hn]; omega)
+  | none =>
+    have hrep : ∀ l : List Int, (l.map (fun i => (i, true))).map (·.2) = List.replicate l.length true := by
+      intro l; induction l <;> simp_all [List.replicate_succ]
+    have hrep := hrep idx.vals
+    simp only [hrep]
+    have hall : decodeWith v (List.replicate idx.vals.length true) = v.map some :=
+      decodeWith_all_valid v _ (by simp [countSet]) (by simp [hl])
+    rcases nullsIfAny_none h with hn | ⟨bs, hn, hb⟩
+    · simp [hn, hall]
+    · simp only [hn]
+      rw [hall, decodeWith_all_valid v bs hb (by rw [hw bs hn]; exact hl)]
+
+theorem bits_all_true (k : Nat) (ivs : List (Int × Bool)) (b : List Bool)
+    (h : ivs.mapM (bitsStep (List.replicate k true)) = some b) : b = ivs.map (·.2) := by
+  induction ivs generalizing b with
+  | nil => simp at h; simp [h]
+  | cons iv ivs ih =>
+    obtain ⟨i, valid⟩ := iv
+    simp only [List.mapM_cons] at h
+    cases hb : bitsStep (List.replicate k true) (i, valid) with
+    | none => simp [hb] at h
+    | some y =>
+      cases hr : ivs.mapM (bitsStep (List.replicate k true)) with
+      | none => simp [hb, hr] at h
+      | some bs =>
+        simp [hb, hr] at h
+        subst h
+        have := ih bs hr
+        subst this
+        simp only [List.map_cons, List.cons.injEq, and_true]
+        unfold bitsStep getIdx at hb
+        cases valid with
+        | false => simpa using hb.symm
+        | true =>
+          simp only [if_true] at hb
+          split at hb
+          · simp at hb
+          · have := List.mem_of_getElem? hb
+            simpa using (List.eq_of_mem_replicate this)
+
+theorem spec_in_range {α : Type} (d : List (Option α)) (ivs : List (Int × Bool)) (r : List (Option α))
+    (h : ivs.mapM (specStep d) = some r) :
+    ∀ iv ∈ ivs, iv.2 = true → 0 ≤ iv.1 ∧ iv.1 < (d.length : Int) := by
+  induction ivs generalizing r with
+  | nil => simp
+  | cons iv ivs ih =>
+    simp only [List.mapM_cons] at h
+    cases hs : specStep d iv with
+    | none => simp [hs] at h
+    | some x =>
+      cases hr : ivs.mapM (specStep d) with
+      | none => simp [hs, hr] at h
+      | some rs =>
+        intro jv hj hvalid
+        simp only [List.mem_cons] at hj
+        rcases hj with hj | hj
+        · subst hj
+          obtain ⟨i, valid⟩ := jv
+          simp only at hvalid
+          subst hvalid
+          unfold specStep takeRow at hs
+          simp only [if_true] at hs
+          split at hs
+          · simp at hs
+          · rename_i hneg
+            have := (List.getElem?_eq_some_iff.mp hs).1
+            simp only
+            omega
+        · exact ih rs hr jv hj hvalid
+
+
+theorem all_true_eq_replicate (bs : List Bool) (h : countSet bs = bs.length) :
+    bs = List.replicate bs.length true := by
+  induction bs with
+  | nil => rfl
+  | cons b bs ih =>
+    have hle := countSet_le bs
+    rw [countSet_cons] at h
+    cases b
+    · simp at h; omega
+    · simp at h
+      rw [List.length_cons, List.replicate_succ, ← ih (by omega)]
+
+theorem decode_validityOf {α : Type} (a : Arr α) (hwf : a.WF) :
+    a.decode = decodeWith a.vals (validityOf a) ∧ a.vals.length = (validityOf a).length := by
+  unfold Arr.decode validityOf Arr.len
+  cases hn : a.nulls with
+  | none =>
+    simp only
+    refine ⟨(decodeWith_all_valid a.vals _ (by simp [countSet]) (by simp)).symm, by simp⟩
+  | some bs => exact ⟨rfl, (hwf bs hn).symm⟩
+
+theorem checkBounds_of_in_range (maxIdx len : Nat) (idx : IdxArr)
+    (h : ∀ iv ∈ idxPairs idx, iv.2 = true → 0 ≤ iv.1 ∧ iv.1 < (len : Int)) :
+    checkBounds maxIdx len idx = true := by
+  unfold checkBounds
+  by_cases hm : len > maxIdx
+  · simp [hm]
+  · simp only [hm, if_false]
+    unfold idxPairs at h
+    cases hn : nullsIfAny idx.nulls with
+    | some n =>
+      rw [hn] at h
+      simp only at h ⊢
+      rw [List.all_eq_true]
+      intro iv hiv
+      cases hv : iv.2 with
+      | false => simp
+      | true => simpa using (h iv hiv hv).2
+    | none =>
+      rw [hn] at h
+      simp only at h ⊢
+      rw [List.all_eq_true]
+      intro i hi
+      have := h (i, true) (by simpa using hi) rfl
+      simpa using this
+
+/-- `take_primitive` (`take_native` + `take_nulls`) agrees with `takeSpec` -/
+theorem takeKernel_spec {α : Type} [Inhabited α] (maxIdx : Nat) (check : Bool) (a : Arr α) (hwf : a.WF)
+    (idx : IdxArr) (hiw : idx.WF) :
+    match takeSpec a.decode idx.decode with
+    | some r => ∃ out, takeKernel maxIdx check a idx = .ok out ∧ out.decode = r
+    | none => ∀ out, takeKernel maxIdx check a idx ≠ .ok out := by
+  obtain ⟨hD, hbl⟩ := decode_validityOf a hwf
+  rw [takeSpec_pairs a.decode idx hiw]
+  have tp := take_pairs a.vals (validityOf a) hbl (idxPairs idx)
+  rw [← hD] at tp
+  have hplen := length_idxPairs idx hiw
+  cases hs : (idxPairs idx).mapM (specStep a.decode) with
+  | none =>
+    rw [hs] at tp
+    simp only at tp ⊢
+    intro out
+    unfold takeKernel
+    split
+    · simp
+    · split
+      · rename_i hemp
+        have : idxPairs idx = [] := by
+          have : idx.vals = [] := by simpa using hemp
+          rw [this] at hplen
+          exact List.eq_nil_of_length_eq_zero hplen
+        rw [this] at hs
+        simp at hs
+      · rw [takeNative_pairs, tp]
+        simp
+  | some r =>
+    rw [hs] at tp
+    simp only at tp ⊢
+    obtain ⟨v, b, hN, hB, hdec, hvl, hbl2⟩ := tp
+    have hrange := spec_in_range a.decode (idxPairs idx) r hs
+    rw [Arr.length_decode a hwf] at hrange
+    have hcb := checkBounds_of_in_range maxIdx a.len idx hrange
+    unfold takeKernel
+    simp only [hcb, Bool.not_true, Bool.and_false, Bool.false_eq_true, if_false]
+    by_cases hemp : idx.vals.isEmpty = true
+    · simp only [hemp, if_true]
+      have : idxPairs idx = [] := by
+        have : idx.vals = [] := by simpa using hemp
+        rw [this] at hplen
+        exact List.eq_nil_of_length_eq_zero hplen
+      rw [this] at hs
+      simp at hs
+      subst hs
+      exact ⟨_, rfl, rfl⟩
+    · simp only [hemp, Bool.false_eq_true, if_false]
+      rw [takeNative_pairs, hN]
+      unfold takeNulls
+      cases hna : nullsIfAny a.nulls with
+      | some bs =>
+        obtain ⟨hn, _⟩ := nullsIfAny_some hna
+        have hv : validityOf a = bs := by unfold validityOf; simp only [hn]
+        rw [hv] at hB
+        simp only
+        rw [takeBits_pairs, hB]
+        simp only
+        refine ⟨_, rfl, ?_⟩
+        unfold Arr.decode
+        by_cases hz : nullCount b = 0
+        · simp only [hz, if_true]
+          rw [← hdec, decodeWith_all_valid v b (by unfold nullCount at hz; have := countSet_le b; omega) (by omega)]
+        · simp only [hz, if_false]
+          exact hdec
+      | none =>
+        simp only
+        refine ⟨_, rfl, ?_⟩
+        rw [← decode_with_idx_nulls v idx hiw (by omega), ← hdec]
+        congr 1
+        have hrep : validityOf a = List.replicate (validityOf a).length true := by
+          rcases nullsIfAny_none hna with hn | ⟨bs, hn, hall⟩
+          · unfold validityOf; simp [hn]
+          · have : validityOf a = bs := by unfold validityOf; simp only [hn]
+            rw [this]; exact all_true_eq_replicate bs hall
+        rw [hrep] at hB
+        exact (bits_all_true _ _ _ hB).symm
+
+/-! ### concat / nullif -/
+
+theorem decodeWith_append {α : Type} (A B : List α) (a b : List Bool) (h : A.length = a.length) :
+    decodeWith (A ++ B) (a ++ b) = decodeWith A a ++ decodeWith B b := by
+  induction A generalizing a with
+  | nil => cases a <;> simp_all [decodeWith]
+  | cons x A ih =>
+    cases a with
+    | nil => simp at h
+    | cons y a => simp [decodeWith, ih a (by simpa using h)]
+
+theorem concat_flatten {α : Type} (arrs : List (Arr α)) (hwf : ∀ a ∈ arrs, a.WF) :
+    decodeWith (arrs.map (·.vals)).flatten (arrs.map validityOf).flatten = (arrs.map Arr.decode).flatten ∧
+    (arrs.map (·.vals)).flatten.length = (arrs.map validityOf).flatten.length := by
+  induction arrs with
+  | nil => simp [decodeWith]
+  | cons a arrs ih =>
+    obtain ⟨h1, h2⟩ := ih (fun x hx => hwf x (by simp [hx]))
+    obtain ⟨hD, hl⟩ := decode_validityOf a (hwf a (by simp))
+    simp only [List.map_cons, List.flatten_cons]
+    rw [decodeWith_append _ _ _ _ hl, h1, hD]
+    exact ⟨rfl, by simp only [List.length_append]; omega⟩
+
+theorem decode_none {α : Type} (v : List α) : Arr.decode { vals := v, nulls := none } = v.map some := rfl
+theorem decode_some {α : Type} (v : List α) (b : List Bool) :
+    Arr.decode { vals := v, nulls := some b } = decodeWith v b := rfl
+
+theorem concatPrimitive_decode {α : Type} (arrs : List (Arr α)) (hwf : ∀ a ∈ arrs, a.WF) :
+    (concatPrimitive arrs).decode = concatSpec (arrs.map Arr.decode) ∧ (concatPrimitive arrs).WF := by
+  obtain ⟨h1, h2⟩ := concat_flatten arrs hwf
+  unfold concatPrimitive concatSpec finishNulls
+  constructor
+  · by_cases hz : nullCount (arrs.map validityOf).flatten = 0
+    · simp only [hz, if_true]
+      rw [decode_none, ← h1, decodeWith_all_valid _ _ (by unfold nullCount at hz; have := countSet_le (arrs.map validityOf).flatten; omega) h2]
+    · simp only [hz, if_false]
+      rw [decode_some]
+      exact h1
+  · intro bs hbs
+    by_cases hz : nullCount (arrs.map validityOf).flatten = 0
+    · simp [hz] at hbs
+    · simp [hz] at hbs
+      subst hbs
+      exact h2.symm
+
+theorem decodeWith_zipWith_nullif {α : Type} (vals : List α) (bits : List Bool) (r : List (Option Bool))
+    (h1 : vals.length = bits.length) (h2 : vals.length = r.length) :
+    decodeWith vals (List.zipWith (fun l m => l && !m) bits (prepMask r)) = nullifSpec (decodeWith vals bits) r := by
+  induction vals generalizing bits r with
+  | nil => cases bits <;> cases r <;> simp_all [decodeWith, nullifSpec, prepMask]
+  | cons v vals ih =>
+    cases bits with
+    | nil => simp at h1
+    | cons b bits =>
+      cases r with
+      | nil => simp at h2
+      | cons m r =>
+        have := ih bits r (by simpa using h1) (by simpa using h2)
+        simp only [prepMask, List.map_cons, List.zipWith_cons_cons, decodeWith, nullifSpec] at this ⊢
+        rw [this]
+        rcases m with _ | _ | _ <;> cases b <;> simp
+
+theorem nullifKernel_decode {α : Type} (a : Arr α) (hwf : a.WF) (r : List (Option Bool)) :
+    (a.len = r.length → ∃ out, nullifKernel a r = some out ∧ out.decode = nullifSpec a.decode r) ∧
+    (a.len ≠ r.length → nullifKernel a r = none) := by
+  obtain ⟨hD, hl⟩ := decode_validityOf a hwf
+  constructor
+  · intro hlen
+    unfold nullifKernel
+    simp only [hlen, ne_eq, not_true_eq_false, if_false]
+    by_cases h0 : r.length = 0
+    · have hr : r = [] := List.eq_nil_of_length_eq_zero h0
+      have hv : a.vals = [] := List.eq_nil_of_length_eq_zero (by unfold Arr.len at hlen; omega)
+      simp only [h0, if_true]
+      refine ⟨a, rfl, ?_⟩
+      rw [hD, hr, hv]
+      cases validityOf a <;> simp [decodeWith, nullifSpec]
+    · simp only [h0, if_false]
+      refine ⟨_, rfl, ?_⟩
+      rw [hD]
+      exact decodeWith_zipWith_nullif a.vals (validityOf a) r hl (by unfold Arr.len at hlen; exact hlen)
+  · intro hne
+    unfold nullifKernel
+    simp [hne]
+
 end ArrowModel.C03
